@@ -152,12 +152,15 @@ type c18Req struct {
 	Exp  string `json:"exp,omitempty"`
 	// AdvanceLeader: the leader commits this many further revisions before the request is invoked
 	AdvanceLeader int `json:"advance,omitempty"`
+	// Overlap: issue this many copies of a read concurrently while the leader's /status answer is delayed, so that
+	// they overlap in the revision fetch (the leader's revision does not move meanwhile)
+	Overlap int `json:"overlap,omitempty"`
 }
 
 type c18Case struct {
 	Role        string // leader | follower
 	Proxy       bool
-	LeaderState string // ok | down | 400 | 500
+	LeaderState string // ok | down | 400 | 500 | noleader (the lock description names no holder: "empty" or "")
 	Reqs        []c18Req
 }
 
@@ -167,7 +170,7 @@ var c18Writes = []string{"create", "update", "delete", "udelete", "compact"}
 func genC18(t *rapid.T) interface{} {
 	c := &c18Case{Role: rapid.SampledFrom([]string{"follower", "follower", "follower", "leader"}).Draw(t, "role")}
 	c.Proxy = DrawBool(t, 40, "proxy")
-	c.LeaderState = rapid.SampledFrom([]string{"ok", "ok", "ok", "down", "400", "500"}).Draw(t, "leaderState")
+	c.LeaderState = rapid.SampledFrom([]string{"ok", "ok", "ok", "down", "400", "500", "noleader", "noleader-blank"}).Draw(t, "leaderState")
 	n := rapid.IntRange(3, 20).Draw(t, "nreqs")
 	for i := 0; i < n; i++ {
 		r := c18Req{API: rapid.SampledFrom([]string{"etcd", "brain"}).Draw(t, "api"), K: DrawIntn(t, 4, "key")}
@@ -184,6 +187,9 @@ func genC18(t *rapid.T) interface{} {
 			r.API = "etcd"
 		}
 		r.AdvanceLeader = rapid.SampledFrom([]int{0, 0, 1, 3}).Draw(t, "advance")
+		if isRead(r.Kind) && r.Kind != "stream" && DrawBool(t, 15, "overlap") {
+			r.Overlap = rapid.IntRange(2, 3).Draw(t, "noverlap")
+		}
 		c.Reqs = append(c.Reqs, r)
 	}
 	return c
@@ -238,6 +244,13 @@ func newC18Node(role string, proxy bool, leaderState string) (*c18Node, error) {
 		_, _ = w.Write(body)
 	}))
 	addr := strings.TrimPrefix(n.srv.URL, "http://")
+	if leaderState == "noleader" || leaderState == "noleader-blank" {
+		n.srv.Close()
+		addr = "empty" // what the lock description yields when the record names no holder
+		if leaderState == "noleader-blank" {
+			addr = ""
+		}
+	}
 	if leaderState == "down" {
 		n.srv.Close()
 		// an address nobody listens on (a freed ephemeral port could be taken by a server of a parallel shard)
@@ -251,7 +264,7 @@ func newC18Node(role string, proxy bool, leaderState string) (*c18Node, error) {
 }
 
 func (n *c18Node) close() {
-	if n.state.Load().(string) != "down" {
+	if st := n.state.Load().(string); st != "down" && st != "noleader" && st != "noleader-blank" {
 		n.srv.Close()
 	}
 	n.env.Close()
@@ -432,6 +445,41 @@ func runC18(ci interface{}, st *CaseStats) error {
 		}
 		leaderAtInvocation := atomic.LoadUint64(&n.leaderRev)
 		exp, _ := n.env.ResolveExp(WOp{Exp: r.Exp}, n.env.Keys[r.K%len(n.env.Keys)])
+		if r.Overlap > 1 && c.Role == "follower" && c.LeaderState == "ok" {
+			// overlapping follower reads: all of them must adopt the leader's revision before reading
+			n.computed, n.release = make(chan struct{}, 8), make(chan struct{})
+			atomic.StoreInt32(&n.delayOn, 1)
+			errs := make([]error, r.Overlap)
+			var wg sync.WaitGroup
+			for i := 0; i < r.Overlap; i++ {
+				wg.Add(1)
+				go func(i int) {
+					defer wg.Done()
+					errs[i], _ = n.issue(c18Req{API: r.API, Kind: r.Kind, K: r.K}, 0, nil)
+				}(i)
+			}
+			select {
+			case <-n.computed:
+			case <-time.After(5 * time.Second):
+			}
+			time.Sleep(2 * time.Millisecond) // the other reads arrive while the answer is in flight
+			atomic.StoreInt32(&n.delayOn, 0)
+			close(n.release)
+			wg.Wait()
+			calls, revs := n.rec.take()
+			what := fmt.Sprintf("request %d: %d overlapping %s:%s reads on a follower: backend calls %v, errors %v", ri, r.Overlap, r.API, r.Kind, calls, errs)
+			adopted := false
+			for i, cl := range calls {
+				if cl == "SetCurrentRevision" && revs[i] >= leaderAtInvocation {
+					adopted = true
+				}
+				if c18ReadMethods[cl] && !adopted {
+					return fmt.Errorf("%s: a read reached the backend before any of the overlapping reads had adopted the leader's revision %d", what, leaderAtInvocation)
+				}
+			}
+			st.Label("overlapping-follower-reads")
+			continue
+		}
 		rerr, proxied := n.issue(r, int64(exp), []byte(fmt.Sprintf("v%d", ri)))
 		calls, revs := n.rec.take()
 		what := fmt.Sprintf("request %d %s:%s on a %s (proxy=%v, leader %s): backend calls %v, error %v", ri, r.API, r.Kind, c.Role, c.Proxy, c.LeaderState, calls, rerr)
@@ -578,7 +626,7 @@ func probeC18SingleFlight() (bool, string) {
 
 var specC18 = &Spec{
 	ID:   "C18",
-	Rule: "handler level: case = role {leader, follower} x proxy {on, off} x leader {answers, unreachable, answers 400, answers 500} and 3..20 requests drawn from every request type of both APIs (etcd: Range get/list/count/partitions, range-stream watch, the four Txn shapes, the compaction Txn, Watch, Put, DeleteRange, Compact; native: Get, Range, Count, ListPartition, RangeStream, Create, Update, Delete, Compact, Watch), with the scripted leader committing 0..3 further revisions before a request. The handlers are the real etcd.New / brain.New objects over a recording Backend (delegating to a real one), leader.Stub, the real revision.NewRevisionSyncer pointed at an httptest server and a recording proxy. Oracle on a follower: no write method and no Watch of the backend is ever invoked; writes/watches are answered Unavailable or forwarded (etcd API, proxy on); a read calls SetCurrentRevision(x) before reading with x >= the revision the leader had committed when the read was invoked; if the leader is unreachable or answers with an error the read fails and the backend is not read. Non-trivial = follower case in which the leader advanced between reads or a write was forwarded; distinct = SHA-1 of the case",
+	Rule: "handler level: case = role {leader, follower} x proxy {on, off} x leader {answers, unreachable, answers 400, answers 500, no leader known (lock description names no holder)}; 15% of follower reads are issued 2..3 at a time with the leader's answer delayed so that they overlap in the revision fetch and 3..20 requests drawn from every request type of both APIs (etcd: Range get/list/count/partitions, range-stream watch, the four Txn shapes, the compaction Txn, Watch, Put, DeleteRange, Compact; native: Get, Range, Count, ListPartition, RangeStream, Create, Update, Delete, Compact, Watch), with the scripted leader committing 0..3 further revisions before a request. The handlers are the real etcd.New / brain.New objects over a recording Backend (delegating to a real one), leader.Stub, the real revision.NewRevisionSyncer pointed at an httptest server and a recording proxy. Oracle on a follower: no write method and no Watch of the backend is ever invoked; writes/watches are answered Unavailable or forwarded (etcd API, proxy on); a read calls SetCurrentRevision(x) before reading with x >= the revision the leader had committed when the read was invoked; if the leader is unreachable or answers with an error the read fails and the backend is not read. Non-trivial = follower case in which the leader advanced between reads or a write was forwarded; distinct = SHA-1 of the case",
 	Gen:  genC18,
 	New:  func() interface{} { return &c18Case{} },
 	Run:  runC18,
